@@ -122,6 +122,19 @@ def generate(reg,c,pins=None,only_case=None,only_variant=None,extra_requires=())
         raise ToolError(f"{c.key} case {cs.name} variant {vl}: precondition unsatisfiable or no path (vacuous)")
   return list(obls.values()),info
 
+def _numerals(forms,limit=16):
+  seen=set(); out=[]; stack=list(forms); visited=set()
+  while stack and len(visited)<20000:
+    t=stack.pop()
+    if t.get_id() in visited: continue
+    visited.add(t.get_id())
+    if z3.is_int_value(t):
+      v=t.as_long()
+      if 2<=v<=1100 and v not in seen: seen.add(v); out.append(v)
+      continue
+    stack.extend(t.children())
+  return sorted(out)[:limit]
+
 def solve_query(q,timeout_ms=20000,want_model=True):
   """returns (status, seconds, solver, model-dict|None).  Portfolio: legacy and default arithmetic cores of z3 with a short
   budget first, then the full budget, then cvc5 on the same text."""
@@ -135,7 +148,7 @@ def solve_query(q,timeout_ms=20000,want_model=True):
     s=z3.Solver(); s.set('timeout',ms)
     for a in base: s.add(a)
     if with_inst:
-      if with_inst not in insts: insts[with_inst]=q.th.instances(with_inst)
+      if with_inst not in insts: insts[with_inst]=q.th.instances(with_inst,numerals=_numerals(base))
       for i in insts[with_inst]: s.add(i)
     return s,s.check()
   s,r=attempt(2,1500,0)            # without lemma instances the theory is weaker: unsat is still sound
